@@ -153,7 +153,7 @@ def create_schematic(circuit_data: dict, circuit_ax: Optional[Axes] = None) -> e
         with elm.Schematic(unit=unit) as schematic:
             fill(schematic, elements, unit, light_lamps, solution_definition)
         return schematic
-    schematic = elm.Schematic(unit=circuit_data['unit'], canvas=circuit_ax)
+    schematic = elm.Schematic(unit=unit, canvas=circuit_ax)
     fill(schematic, elements, unit, light_lamps, solution_definition)
     schematic.draw(show=False)
     return schematic
